@@ -17,14 +17,19 @@ package regular
 import (
 	"bytes"
 	"context"
+	"crypto/ecdsa"
+	"crypto/elliptic"
 	"crypto/rand"
 	"crypto/sha256"
+	"crypto/tls"
 	"crypto/x509"
+	"crypto/x509/pkix"
 	"encoding/hex"
 	"encoding/json"
-	"errors"
+	"encoding/pem"
 	"fmt"
 	"io"
+	"math/big"
 	mrand "math/rand"
 	"net"
 	"os"
@@ -42,6 +47,7 @@ import (
 	agssh "github.com/theparanoids/ysshra/agent/ssh"
 	"github.com/theparanoids/ysshra/common"
 	"github.com/theparanoids/ysshra/config"
+	"github.com/theparanoids/ysshra/crypki"
 	"github.com/theparanoids/ysshra/csr"
 	"github.com/theparanoids/ysshra/csr/transid"
 	"github.com/theparanoids/ysshra/gensign"
@@ -52,6 +58,10 @@ import (
 	"github.com/theparanoids/ysshra/verifh"
 	"golang.org/x/crypto/ssh"
 	"golang.org/x/crypto/ssh/agent"
+	"google.golang.org/grpc"
+	"google.golang.org/grpc/codes"
+	"google.golang.org/grpc/credentials"
+	"google.golang.org/grpc/status"
 )
 
 // ---------------------------------------------------------------------------------------------
@@ -96,6 +106,8 @@ type zvgGRun struct {
 	More    bool        `json:"more"`
 	Fok     bool        `json:"fok"`
 	PlainCA bool        `json:"plainca"`
+	Wire    string      `json:"wire"`  // "json" (default) or the text of the legacy HardKey attribute ("absent" = no attribute)
+	Kalgo   string      `json:"kalgo"` // key algorithm of the stub handler's agent key
 	Flts    []zvgGFlt   `json:"flts,omitempty"`
 }
 
@@ -472,6 +484,7 @@ type zvgStubHandler struct {
 	sgen   string
 	ncsr   int
 	val    uint64
+	kalgo  string
 	ag     agent.Agent
 }
 
@@ -500,6 +513,9 @@ func (s *zvgStubHandler) Generate(p *csr.ReqParam) ([]csr.AgentKey, error) {
 	opt.PrivateKeyValiditySec = uint32(s.val) + 3600
 	opt.CertLabel = zvgStubName + "-cert"
 	opt.PublicKeyAlgo = key.ECDSAsecp256r1
+	if a, ok := key.SSHKeyAlgoStrMap[s.kalgo]; ok {
+		opt.PublicKeyAlgo = a
+	}
 	ak, err := agssh.NewSSHAgentKeyWithOpt(s.ag, opt)
 	if err != nil {
 		return nil, gensign.NewError(gensign.HandlerGenCSRErr, zvgStubName, err)
@@ -612,6 +628,140 @@ func (h *zvgRecH) Generate(p *csr.ReqParam) ([]csr.AgentKey, error) {
 	return keys, err
 }
 
+// The CA: a fake crypki server (gRPC over TLS on 127.0.0.1) behind the REAL crypki.Signer.  zvgStubCA is the csr.Signer
+// handed to gensign.Run: it records the request, injects a panic "inside Signer.Sign" when the plan says so, and otherwise
+// delegates to the real signer, whose request reaches zvgFakeCA; the fake CA answers as scripted for this run:
+// n certificates (authorized-keys lines with comments), OK without any certificate, or a gRPC error.
+type zvgCACall struct {
+	idx     int
+	ncert   int
+	plain   bool
+	fault   string // "" | "err"
+	serial  *uint64
+	plainPK ssh.PublicKey
+	ca      ssh.Signer
+	rnd     *mrand.Rand
+	res     string // set by the fake CA: "ok" | "err" | "empty"
+}
+
+type zvgFakeCA struct {
+	proto.UnimplementedSigningServer
+	mu    sync.Mutex
+	calls map[string]*zvgCACall
+}
+
+func zvgCAKey(req *proto.SSHCertificateSigningRequest) string { return req.KeyId + "|" + req.PublicKey }
+
+func (f *zvgFakeCA) PostUserSSHCertificate(ctx context.Context, req *proto.SSHCertificateSigningRequest) (*proto.SSHKey, error) {
+	f.mu.Lock()
+	c := f.calls[zvgCAKey(req)]
+	f.mu.Unlock()
+	if c == nil {
+		return nil, status.Error(codes.NotFound, "verif: unknown request")
+	}
+	if c.fault == "err" {
+		c.res = "err"
+		return nil, status.Error(codes.Internal, "verif: CA refuses")
+	}
+	pub, _, _, _, perr := ssh.ParseAuthorizedKey([]byte(req.PublicKey))
+	if perr != nil {
+		c.res = "err"
+		return nil, status.Error(codes.InvalidArgument, "verif: CSR public key does not parse")
+	}
+	if c.ncert == 0 {
+		// gRPC-OK, but the reply carries no certificate
+		c.res = "empty"
+		return &proto.SSHKey{Key: []string{"", "", "", "\n", "no certificate here"}[c.rnd.Intn(5)]}, nil
+	}
+	var sb strings.Builder
+	now := uint64(time.Now().Unix())
+	for j := 0; j < c.ncert; j++ {
+		*c.serial++
+		ct := verifh.Mint(c.ca, verifh.CertSpec{Key: pub, KeyID: req.KeyId, ValidAfter: now - 60, ValidBefore: now + req.Validity,
+			Principals: req.Principals, Serial: *c.serial, Exts: req.Extensions})
+		line := strings.TrimSuffix(string(ssh.MarshalAuthorizedKey(ct)), "\n")
+		if j%2 == 1 {
+			line += fmt.Sprintf(" ca-comment-%d", j)
+		}
+		sb.WriteString(line + "\n")
+		if c.plain && j == 0 {
+			// a non-certificate public key among the answers is skipped by the RA
+			sb.WriteString(strings.TrimSuffix(string(ssh.MarshalAuthorizedKey(c.plainPK)), "\n") + " not-a-certificate\n")
+		}
+	}
+	c.res = "ok"
+	return &proto.SSHKey{Key: sb.String()}, nil
+}
+
+var (
+	zvgCAOnce   sync.Once
+	zvgCAServer *zvgFakeCA
+	zvgCASigner *crypki.Signer
+	zvgCAErr    error
+)
+
+// zvgRealSigner starts the fake CA once per process and returns the real crypki.Signer configured for it.
+func zvgRealSigner() (*zvgFakeCA, *crypki.Signer, error) {
+	zvgCAOnce.Do(func() {
+		dir, err := os.MkdirTemp("", "verif_gensign_ca")
+		if err != nil {
+			zvgCAErr = err
+			return
+		}
+		mk := func(tpl, parent *x509.Certificate, pk *ecdsa.PrivateKey, signer *ecdsa.PrivateKey) ([]byte, error) {
+			return x509.CreateCertificate(rand.Reader, tpl, parent, &pk.PublicKey, signer)
+		}
+		now := time.Now()
+		caKey, _ := ecdsa.GenerateKey(elliptic.P256(), rand.Reader)
+		caTpl := &x509.Certificate{SerialNumber: big.NewInt(1), Subject: pkix.Name{CommonName: "verif gensign CA"}, NotBefore: now.Add(-time.Hour),
+			NotAfter: now.Add(72 * time.Hour), IsCA: true, BasicConstraintsValid: true, KeyUsage: x509.KeyUsageCertSign | x509.KeyUsageDigitalSignature}
+		caDER, err := mk(caTpl, caTpl, caKey, caKey)
+		if err != nil {
+			zvgCAErr = err
+			return
+		}
+		caCert, _ := x509.ParseCertificate(caDER)
+		srvKey, _ := ecdsa.GenerateKey(elliptic.P256(), rand.Reader)
+		srvDER, err := mk(&x509.Certificate{SerialNumber: big.NewInt(2), Subject: pkix.Name{CommonName: "crypki.verif"}, NotBefore: now.Add(-time.Hour),
+			NotAfter: now.Add(72 * time.Hour), KeyUsage: x509.KeyUsageDigitalSignature, ExtKeyUsage: []x509.ExtKeyUsage{x509.ExtKeyUsageServerAuth},
+			IPAddresses: []net.IP{net.ParseIP("127.0.0.1")}, DNSNames: []string{"localhost"}}, caCert, srvKey, caKey)
+		if err != nil {
+			zvgCAErr = err
+			return
+		}
+		cliKey, _ := ecdsa.GenerateKey(elliptic.P256(), rand.Reader)
+		cliDER, err := mk(&x509.Certificate{SerialNumber: big.NewInt(3), Subject: pkix.Name{CommonName: "ysshra-ra.verif"}, NotBefore: now.Add(-time.Hour),
+			NotAfter: now.Add(72 * time.Hour), KeyUsage: x509.KeyUsageDigitalSignature, ExtKeyUsage: []x509.ExtKeyUsage{x509.ExtKeyUsageClientAuth}}, caCert, cliKey, caKey)
+		if err != nil {
+			zvgCAErr = err
+			return
+		}
+		cliKeyDER, _ := x509.MarshalECPrivateKey(cliKey)
+		w := func(name string, b []byte) string {
+			f := filepath.Join(dir, name)
+			os.WriteFile(f, b, 0o600)
+			return f
+		}
+		caFile := w("ca.pem", pem.EncodeToMemory(&pem.Block{Type: "CERTIFICATE", Bytes: caDER}))
+		cliCert := w("client.crt", pem.EncodeToMemory(&pem.Block{Type: "CERTIFICATE", Bytes: cliDER}))
+		cliKeyF := w("client.key", pem.EncodeToMemory(&pem.Block{Type: "EC PRIVATE KEY", Bytes: cliKeyDER}))
+		lis, err := net.Listen("tcp", "127.0.0.1:0")
+		if err != nil {
+			zvgCAErr = err
+			return
+		}
+		tlsCfg := &tls.Config{Certificates: []tls.Certificate{{Certificate: [][]byte{srvDER}, PrivateKey: srvKey}}, MinVersion: tls.VersionTLS12,
+			ClientAuth: tls.RequestClientCert}
+		srv := grpc.NewServer(grpc.Creds(credentials.NewTLS(tlsCfg)))
+		zvgCAServer = &zvgFakeCA{calls: map[string]*zvgCACall{}}
+		proto.RegisterSigningServer(srv, zvgCAServer)
+		go srv.Serve(lis)
+		zvgCASigner, zvgCAErr = crypki.NewSigner(crypki.SignerConfig{TLSClientKeyFile: cliKeyF, TLSClientCertFile: cliCert, TLSCACertFiles: []string{caFile},
+			CrypkiEndpoints: []string{"127.0.0.1"}, CrypkiPort: uint(lis.Addr().(*net.TCPAddr).Port), Retries: 1, PerTryTimeout: 30 * time.Second})
+	})
+	return zvgCAServer, zvgCASigner, zvgCAErr
+}
+
 type zvgStubCA struct {
 	ca      ssh.Signer
 	rc      *zvgRunCtx
@@ -621,6 +771,9 @@ type zvgStubCA struct {
 	calls   int
 	serial  *uint64
 	plainPK ssh.PublicKey
+	rnd     *mrand.Rand
+	server  *zvgFakeCA
+	inner   csr.Signer
 }
 
 func (c *zvgStubCA) Sign(ctx context.Context, req *proto.SSHCertificateSigningRequest) ([]ssh.PublicKey, []string, error) {
@@ -644,8 +797,7 @@ func (c *zvgStubCA) Sign(ctx context.Context, req *proto.SSHCertificateSigningRe
 	if req.KeyMeta != nil {
 		rec.Ident = req.KeyMeta.Identifier
 	}
-	pub, _, _, _, perr := ssh.ParseAuthorizedKey([]byte(req.PublicKey))
-	if perr == nil {
+	if pub, _, _, _, perr := ssh.ParseAuthorizedKey([]byte(req.PublicKey)); perr == nil {
 		rec.Key = zvgTagOf(pub.Marshal())
 	} else {
 		rec.Key = "unparsable"
@@ -658,53 +810,46 @@ func (c *zvgStubCA) Sign(ctx context.Context, req *proto.SSHCertificateSigningRe
 			rec.Kid.Prins = append(rec.Kid.Prins, zvgHx(p))
 		}
 	}
-	push := func() {
+	push := func(recs []zvgGCert) {
 		c.rc.mu.Lock()
 		c.rc.obs.Csr = append(c.rc.obs.Csr, rec)
+		c.rc.obs.Certs = append(c.rc.obs.Certs, recs...)
 		c.rc.mu.Unlock()
 	}
-	switch c.flts[idx] {
-	case "err":
-		rec.Res = "err"
-		push()
-		return nil, nil, errors.New("verif: CA refuses")
-	case "panic":
+	if c.flts[idx] == "panic" {
 		rec.Res = "panic"
-		push()
+		push(nil)
 		panic("verif: injected panic in Signer.Sign")
 	}
-	if perr != nil {
-		rec.Res = "err"
-		push()
-		return nil, nil, fmt.Errorf("verif: CSR public key does not parse: %v", perr)
+	call := &zvgCACall{idx: idx, ncert: c.ncert, plain: c.plain, fault: c.flts[idx], serial: c.serial, plainPK: c.plainPK, ca: c.ca, rnd: c.rnd}
+	k := zvgCAKey(req)
+	c.server.mu.Lock()
+	c.server.calls[k] = call
+	c.server.mu.Unlock()
+	certs, comments, err := c.inner.Sign(ctx, req) // the real crypki.Signer
+	c.server.mu.Lock()
+	delete(c.server.calls, k)
+	c.server.mu.Unlock()
+	// what the CA did (environment fact) and what the signer handed to Run (observation)
+	rec.Res = call.res
+	if rec.Res == "" {
+		rec.Res = "err" // the request did not reach the CA
 	}
-	var certs []ssh.PublicKey
-	var comments []string
-	now := uint64(time.Now().Unix())
 	var recs []zvgGCert
-	for j := 0; j < c.ncert; j++ {
-		*c.serial++
-		ct := verifh.Mint(c.ca, verifh.CertSpec{Key: pub, KeyID: req.KeyId, ValidAfter: now - 60, ValidBefore: now + req.Validity,
-			Principals: req.Principals, Serial: *c.serial, Exts: req.Extensions})
-		certs = append(certs, ct)
-		if j%2 == 1 {
-			comments = append(comments, fmt.Sprintf("ca-comment-%d", j))
-		} else {
-			comments = append(comments, "")
-		}
-		recs = append(recs, zvgGCert{Tag: zvgTagOf(ct.Marshal()), Key: rec.Key, Call: idx})
-		if c.plain && j == 0 {
-			// a non-certificate public key among the answers is skipped by the RA
-			certs = append(certs, c.plainPK)
-			comments = append(comments, "not-a-certificate")
+	for _, pk := range certs {
+		if ct, ok := pk.(*ssh.Certificate); ok {
+			recs = append(recs, zvgGCert{Tag: zvgTagOf(ct.Marshal()), Key: zvgTagOf(ct.Key.Marshal()), Call: idx})
+		} else if strings.Contains(pk.Type(), "cert") {
+			if p2, e2 := ssh.ParsePublicKey(pk.Marshal()); e2 == nil {
+				if ct, ok := p2.(*ssh.Certificate); ok {
+					recs = append(recs, zvgGCert{Tag: zvgTagOf(ct.Marshal()), Key: zvgTagOf(ct.Key.Marshal()), Call: idx})
+				}
+			}
 		}
 	}
-	rec.Res, rec.N = "ok", c.ncert
-	c.rc.mu.Lock()
-	c.rc.obs.Csr = append(c.rc.obs.Csr, rec)
-	c.rc.obs.Certs = append(c.rc.obs.Certs, recs...)
-	c.rc.mu.Unlock()
-	return certs, comments, nil
+	rec.N = len(recs)
+	push(recs)
+	return certs, comments, err
 }
 
 // ---------------------------------------------------------------------------------------------
@@ -1004,6 +1149,22 @@ func (g *zvgGInst) runOne(ri int, run *zvgGRun, pre []zvgGID) (*zvgGRec, []zvgGI
 	// two runs of three use fully conventional values (ASCII account / user / host names, as every deployment has them);
 	// the others arbitrary UTF-8 with JSON / shell metacharacters
 	conv := r.Intn(3) != 0
+	// request message format: JSON, or the legacy text format (conventional names only; it cannot name a CA key algorithm)
+	wire := run.Wire
+	if wire == "" {
+		wire = "json"
+	}
+	if wire != "json" {
+		conv = true
+	} else if conv && run.Algo == 0 && run.Ru != "=ln" && r.Intn(2) == 0 {
+		wire = "absent"
+		if run.Hard {
+			wire = []string{"true", "true", "1", "t", "T", "TRUE", "True"}[r.Intn(7)]
+		}
+	}
+	if run.Kalgo == "" {
+		run.Kalgo = "ECCP256"
+	}
 	genLn, genRu, genRh := func() string { return zvgGenLogName(r) }, func() string { return zvgGenText(r, true) }, func() string { return zvgGenText(r, false) }
 	if conv {
 		genLn = func() string { return zvgGenConvName(r) }
@@ -1270,22 +1431,39 @@ func (g *zvgGInst) runOne(ri int, run *zvgGRun, pre []zvgGID) (*zvgGRec, []zvgGI
 				}
 			}
 		case "accept", "reject":
-			inner = &zvgStubHandler{accept: hk == "accept", sgen: run.Sgen, ncsr: run.Ncsr, val: run.Val, ag: agent.NewClient(px.client)}
+			inner = &zvgStubHandler{accept: hk == "accept", sgen: run.Sgen, ncsr: run.Ncsr, val: run.Val, kalgo: run.Kalgo, ag: agent.NewClient(px.client)}
 		default:
 			return nil, nil, fmt.Errorf("unknown handler kind %q", hk)
 		}
 		hs = append(hs, &zvgRecH{inner: inner, idx: i + 1, rc: rc, panicAt: hF[i+1]})
 	}
-	ca := &zvgStubCA{ca: g.ca, rc: rc, ncert: run.Ncert, plain: run.PlainCA, flts: caF, serial: &g.serial, plainPK: g.O.Pub}
+	caSrv, realSigner, caErr := zvgRealSigner()
+	if caErr != nil {
+		return nil, nil, fmt.Errorf("fake CA / crypki.NewSigner: %v", caErr)
+	}
+	ca := &zvgStubCA{ca: g.ca, rc: rc, ncert: run.Ncert, plain: run.PlainCA, flts: caF, serial: &g.serial, plainPK: g.O.Pub, rnd: r,
+		server: caSrv, inner: realSigner}
 	// ---- request parameters: built the way production builds them, csr.NewReqParam over the forced-command environment
 	// (SSH_ORIGINAL_COMMAND in the JSON or the legacy format, LOGNAME, SSH_CONNECTION, argv); a hand-built value only
 	// when NewReqParam cannot produce the scenario
 	attrs := &message.Attributes{IfVer: 7, Username: cv.ru, Hostname: cv.rh, SSHClientVersion: "8.1", HardKey: run.Hard,
 		CAPubKeyAlgo: zvgX509Algo(run.Algo)}
 	var cmd string
-	if conv && run.Algo == 0 && r.Intn(2) == 0 {
-		attrs.IfVer = 6
-		cmd, _ = attrs.MarshalLegacy()
+	if wire != "json" {
+		// legacy text; the boolean attributes in any spelling (the HardKey text is the scenario's, the others are noise)
+		sp := []string{"1", "t", "T", "TRUE", "true", "True", "0", "f", "F", "FALSE", "false", "False", "yes", ""}
+		parts := []string{"IFVer=6", "SSHClientVersion=8.1", "req=" + cv.ru + "@" + cv.rh}
+		if wire != "absent" {
+			parts = append(parts, "HardKey="+wire)
+		}
+		if r.Intn(3) == 0 {
+			parts = append(parts, "Touch2SSH="+sp[r.Intn(len(sp))])
+		}
+		if r.Intn(3) == 0 {
+			parts = append(parts, "IsFirefighter="+sp[r.Intn(len(sp))])
+		}
+		r.Shuffle(len(parts)-1, func(i, j int) { parts[i+1], parts[j+1] = parts[j+1], parts[i+1] })
+		cmd = strings.Join(parts, " ")
 	} else {
 		cb, _ := json.Marshal(attrs)
 		cmd = string(cb)
@@ -1294,8 +1472,9 @@ func (g *zvgGInst) runOne(ri int, run *zvgGRun, pre []zvgGID) (*zvgGRec, []zvgGI
 		"SSH_CONNECTION": fmt.Sprintf("%s %d %s 22", cv.ip, 1024+r.Intn(64000), zvgGenIP4(r))}
 	param, perr := csr.NewReqParam(func(k string) string { return env[k] }, func() []string { return []string{"/usr/bin/gensign", run.Ns, HandlerName} })
 	if perr != nil || param == nil || param.Attrs == nil || param.LogName != cv.ln || param.ReqUser != cv.ru || param.ReqHost != cv.rh ||
-		param.ClientIP != cv.ip || param.Attrs.HardKey != run.Hard || int(param.Attrs.CAPubKeyAlgo) != run.Algo ||
-		string(param.NamespacePolicy) != run.Ns {
+		param.ClientIP != cv.ip || string(param.NamespacePolicy) != run.Ns ||
+		(wire == "json" && (param.Attrs.HardKey != run.Hard || int(param.Attrs.CAPubKeyAlgo) != run.Algo)) {
+		// (for the legacy format the flags are whatever the real parser makes of the text: that chain is under test)
 		param = &csr.ReqParam{
 			NamespacePolicy:  common.NamespacePolicy(run.Ns),
 			HandlerName:      HandlerName,
@@ -1350,6 +1529,10 @@ func (g *zvgGInst) runOne(ri int, run *zvgGRun, pre []zvgGID) (*zvgGRec, []zvgGI
 	sc := *run
 	sc.Ln, sc.Ru, sc.Rh, sc.IP, sc.Tid = zvgHx(cv.ln), zvgHx(cv.ru), zvgHx(cv.rh), zvgHx(cv.ip), zvgHx(cv.tid)
 	sc.Dir = dirRec
+	sc.Wire = wire
+	if wire != "json" {
+		sc.Hard = map[string]bool{"1": true, "t": true, "T": true, "TRUE": true, "true": true, "True": true}[wire]
+	}
 	sc.Flts = nil
 	if sc.Ids == nil {
 		sc.Ids = []zvgGIdent{}
@@ -1463,6 +1646,7 @@ func zvgRandomCase(n int, maxRuns int) zvgGCase {
 			run.Ns = "NSOK"
 		}
 		run.Hard = r.Intn(20) == 0
+		run.Kalgo = []string{"ECCP256", "ECCP256", "ECCP384", "ECCP521", "ED25519", "RSA2048"}[r.Intn(6)]
 		if r.Intn(5) > 0 {
 			run.Dir = zvgGDir{Lp: fcls([]int{2, 8, 1, 1}), Lb: fcls([]int{6, 2, 1, 1}), Rp: fcls([]int{8, 2, 1, 0}), Rb: fcls([]int{9, 1, 1, 0})}
 		} else {
@@ -1530,6 +1714,12 @@ func zvgRandomCase(n int, maxRuns int) zvgGCase {
 		}
 		if run.Flts == nil {
 			run.Flts = []zvgGFlt{}
+		}
+		// one run of six arrives in the legacy message format with some spelling of the HardKey attribute
+		if r.Intn(6) == 0 && run.Ru != "=ln" {
+			sp := []string{"absent", "absent", "0", "f", "F", "FALSE", "false", "False", "1", "t", "T", "TRUE", "true", "True", "", "yes", "2", "TrUe", "on"}
+			run.Wire = sp[r.Intn(len(sp))]
+			run.Algo = 0
 		}
 		c.Runs = append(c.Runs, run)
 	}
